@@ -33,6 +33,7 @@ import time
 
 sys.path.insert(0, os.path.dirname(os.path.abspath(__file__)))
 import core
+import gen_c17
 from core import enc_str
 
 from prompt_toolkit import PromptSession
@@ -50,72 +51,126 @@ logging.getLogger("asyncio").setLevel(logging.CRITICAL)
 
 ID = "C17"
 DRIVER = "drv_c17"
-PROPS = ["Ptk.Props.C17", "Ptk.Props.C17Buf", "Ptk.Props.C17Flush"]
-LEVEL_TEXT = ("Lean 4 theorems over two executable models of the accept boundary, for EVERY schedule of writes / reads "
+PROPS = ["Ptk.Props.C17", "Ptk.Props.C17Buf", "Ptk.Props.C17Flush", "Ptk.Props.C17Paste", "Ptk.Props.C17PasteApp",
+         "Ptk.Props.C17Store"]
+ANCHORS = ["src/prompt_toolkit/application/application.py", "src/prompt_toolkit/key_binding/key_processor.py",
+           "src/prompt_toolkit/input/typeahead.py", "src/prompt_toolkit/input/vt100.py",
+           "src/prompt_toolkit/key_binding/bindings/cpr.py", "src/prompt_toolkit/input/vt100_parser.py",
+           "src/prompt_toolkit/input/posix_utils.py", "src/prompt_toolkit/input/ansi_escape_sequences.py"]
+LEVEL_TEXT = ("Lean 4 theorems over five executable models around the accept boundary, for EVERY schedule of writes / reads "
               "of any size / starts / timer expiries / finishes and every CPR placement. Layer 1 (process_keys with "
               "the is_done gate, c-j re-feed, run_async type-ahead replay / read guard / CPR wait of the exit path / "
               "store_typeahead): no key "
               "lost, duplicated or reordered; results = the segments of the typed key stream; k lines -> k prompts "
               "(a fair schedule finishes all k); accepted line frozen; CPR never text; termination. Layer 2 (key "
               "buffer of KeyProcessor._process: multi-key bindings, prefix waiting, retry loop, flush timer, "
-              "push-back on exit, CPR outside the buffer, numeric argument) for EVERY state-dependent binding registry: "
+              "push-back on exit, CPR outside the buffer, numeric argument) for EVERY state-dependent binding registry "
+              "(so also for validators that reject a line and for handlers that exit with an exception: c-c, c-d): "
               "conservation, a CPR changes neither the argument nor what the next key does, "
-              "nothing dispatched after the exiting call, no double exit, key buffer empty at exit. Layer 3 (input "
+              "nothing dispatched after the exiting call, a prompt ends only at an exiting call (a rejected Enter is no "
+              "boundary), no double exit, key buffer empty at exit. Layer 3 (input "
               "flush timer): a sequence split across reads closer than ttimeoutlen apart is never flushed in "
-              "between. The models are "
-              "tied to /repo on every run by a step-by-step correspondence on explicit schedules (also on a virtual clock "
-              "with chunk boundaries inside escape sequences), an end-to-end "
-              "correspondence (k prompts on one pipe: pre-fed, writer thread, writer task, byte-level chunking) and "
-              "the property oracle")
+              "between. Layer 4 (the input object in front of the boundary: pipe of characters + Vt100Parser.feed with "
+              "its bracketed-paste mode, for EVERY normal-mode generator): feed = a character-by-character "
+              "specification, hence every chunking of the stream (cuts inside ESC[200~, the pasted text, ESC[201~, "
+              "any escape sequence) gives the same key presses and parser state; a paste is ONE key press carrying "
+              "exactly the text between the marks and what follows the end mark (Enter!) is ordinary input; "
+              "conservation at the level of characters incl. what parser and unread pipe will still deliver; k lines "
+              "of typed text and pastes -> exactly these lines = typed text + pasted text; the parser (pending "
+              "sequence, paste mode) survives the accept boundary; side conditions re-decided on the sequence table "
+              "regenerated from /repo. Layer 5 (type-ahead store as a map keyed by typeahead_hash(), several inputs): "
+              "FIFO append per hash, isolation between hashes, every input runs the one-input machine under every "
+              "interleaving (all layer-1 theorems per input). The models are "
+              "tied to /repo on every run by generated tables and pins, a step-by-step correspondence on explicit "
+              "schedules (also on a virtual clock with chunk boundaries inside escape sequences; byte-exact read sizes "
+              "for the parser layer incl. the 1024-byte read boundary; two inputs in one event loop), an end-to-end "
+              "correspondence (k prompts on one pipe: pre-fed, writer thread, writer task, byte-level chunking, "
+              "in_thread) and the property oracle")
 LEVEL_NOTE = ("PARTIAL: read boundaries, finish points and timer expiry are nondeterministic inputs of the models "
-              "(the theorems quantify over all of them); the OS pipe, asyncio scheduling, the bytes->keys parser "
-              "(C03), the parser's own flush timer and the line editor are runtime/other properties and only "
-              "sampled here. Trusted: Lean kernel, axioms propext/Classical.choice/Quot.sound only; hand-written "
-              "models validated by the correspondence")
+              "(the theorems quantify over all of them); the OS pipe, asyncio scheduling, the UTF-8 decoder and the "
+              "escape-sequence grammar of the normal-mode generator (C03; a parameter of layer 4, its concrete copy is "
+              "correspondence-checked), the parser's own flush timer and the line editor are runtime/other properties "
+              "and only sampled here. Trusted: Lean kernel, axioms propext/Classical.choice/Quot.sound only; "
+              "hand-written models validated by the correspondence")
 TECHNIQUE = "Lean 4 proof over an executable model + differential correspondence + property oracle"
 RULE = ("step cases: every script over {a, Enter, CPR, c-j} up to the tier's length x every chunking into writes x "
         "4 schedule patterns (pre-fed / interleaved / late finish with reads while done / stale reader callback "
         "between prompts), then seeded random scripts (editing keys, c-c, multi-byte text, CPRs) with random event "
         "schedules incl. partial reads; the same for the key-buffer layer (c-x prefix, c-x c-x, escape Enter, "
-        "escape + unbound key, c-space c-c = pending abort, flush-timer events); e2e cases: seeded scripts of 1-5 "
-        "lines in modes pre / thread (key-boundary chunks) / threadbytes (arbitrary byte cuts) / async (writer "
-        "task), CPRs injected at key boundaries. non-trivial = at least two prompts, or a key after an accepting "
-        "key, or a CPR")
+        "escape + unbound key, c-space c-c = pending abort, flush-timer events; sessions with a rejecting validator "
+        "and c-d); parser layer: scripts with bracketed pastes (bodies incl. CR, CRLF, a prefix of the end mark, "
+        "empty), EVERY single cut position x write-cut / read-cut / late / pre-fed patterns, pairs of cuts, byte by "
+        "byte, the end mark across the 1024-byte read boundary, random character schedules; two-input layer: every "
+        "interleaving of two inputs with type-ahead, sampled interleavings with partial reads, alternating sessions "
+        "per input; e2e cases: seeded scripts of 1-5 lines in modes pre / thread (key-boundary chunks) / threadbytes "
+        "(arbitrary byte cuts) / async (writer task) / in_thread, CPRs injected at key boundaries, pastes with cuts "
+        "mostly inside the marks. non-trivial = at least two prompts, or a key after an accepting key, or a CPR, or "
+        "a paste")
 EXHAUSTIVE = True
 EXHAUSTIVE_SCOPE = {
     "quick": "virtual clock: bursts 'a' | 'b'+first part of Left/Delete | rest+'X Enter cd Enter' for every split position "
              "and gaps in {0.4,0.7,0.95}*ttimeoutlen; step: scripts over {a,Enter,CPR,c-j} len<=3 with >=1 accepting key, all chunkings into writes (len 3: "
              "3 chunkings), 4 schedule patterns; CPR-answering output: scripts over {a,Enter,CPR} len<=3, all "
              "chunkings, 4 patterns around the CPR wait; key-buffer layer: scripts over {a,Enter,c-x,c-space c-c,c-c} len<=3, 2-4 chunkings, "
-             "schedule patterns with and without the flush timer",
+             "schedule patterns with and without the flush timer; validator/c-d: scripts over {a,Enter,c-d,BS} / "
+             "{a,x,Enter,BS} / {a,Enter,c-d,c-a} len<=2 (len 3: pre-fed only) for validators none / non-empty / "
+             "no-x; parser layer: 5 scripts with pastes, every single cut position (every split point of both marks) "
+             "x 1-4 patterns, all pairs of cuts inside the marks, byte by byte, end mark 0..6 bytes before the "
+             "1024-byte read boundary (step and e2e); two inputs: all 70 interleavings of two 4-block schedules",
     "thorough": "step: scripts over {a,Enter,CPR,c-j,b} len<=3 all chunkings (len 4: 2 chunkings), 4 schedule "
                 "patterns; CPR-answering output: scripts over {a,Enter,CPR,c-j} len<=3, all chunkings, 4 patterns "
                 "around the CPR wait; key-buffer layer: scripts over {a,Enter,c-x,c-space c-c,c-c,esc-Enter,CPR,esc-q} len<=2 "
                 "all chunkings (len 3 and, over the first five, len 4: 2 chunkings), patterns with and "
-                "without the flush timer"}
-TRUSTED = ["harness/c17.py: token table (bytes <-> key code), the stepper that calls the registered reader callback, "
-           "the comparison of states/results",
-           "Ptk/Model/C17.lean and Ptk/Model/C17Buf.lean are hand translations of process_keys / _process / "
-           "run_async / typeahead.py / the default single-line emacs bindings used in the scripts "
-           "(correspondence-checked)"]
+                "without the flush timer; validator/c-d: len<=3 (len 4: pre-fed only); parser layer: as quick plus "
+                "all pairs of cuts anywhere in the first script, the end mark across the first and the second read "
+                "boundary; two inputs: as quick"}
+TRUSTED = ["harness/c17.py: token table (bytes <-> key code), the stepper that calls the registered reader callback "
+           "(and limits how many bytes one stdin_reader.read returns), the comparison of states/results",
+           "harness/gen_c17.py: prints ANSI_SEQUENCES with the protocol's key codes, the end-mark literal of "
+           "Vt100Parser.feed (from the AST), the four regex pattern strings, the read size of PosixStdinReader",
+           "Ptk/Model/C17*.lean are hand translations of process_keys / _process / run_async / typeahead.py / "
+           "Vt100Parser.feed and _input_parser_generator / the default single-line emacs bindings used in the "
+           "scripts (correspondence-checked)"]
 ASSUMPTIONS = ["asyncio runs callbacks of one loop one at a time (the model's events are atomic)",
-               "bytes -> key presses is a function of the concatenated byte stream (property C03); incomplete escape "
-               "sequences are not flushed by a timer in the byte-cut cases (ttimeoutlen raised to 30 s there)",
+               "layers 1-3 and 5: bytes -> key presses is a function of the concatenated byte stream (layer 4 proves it "
+               "for the paste mechanism and every normal-mode generator; the generator itself is C03's); incomplete "
+               "escape sequences are not flushed by a timer in the byte-cut cases (ttimeoutlen raised there)",
+               "layer 4 works on characters: the incremental UTF-8 decoder in front of the parser is C03's (step cases "
+               "are ASCII, e2e cases cut multi-byte text at arbitrary bytes)",
                "one pipe input = one typeahead hash; outputs: DummyOutput (no CPR requests) and Vt100_Output on a "
                "fake tty (CPR request at every start; the 1 s timeout of wait_for_cpr_responses is shortened to "
-               "0.08 s in the harness, a timer value only)"]
+               "0.08 s in the harness, a timer value only)",
+               "applications that run at the same time on different inputs have an AppSession each "
+               "(create_app_session; with a shared AppSession get_app() is the application started last - documented "
+               "API contract, not modelled)",
+               "sessions with a validator use validate_while_typing=False (with the default, whether a rejected Enter "
+               "moves the cursor depends on whether the asynchronous validation has cached its verdict yet: "
+               "timing-dependent, but no accept boundary is involved)"]
 PARTIAL_SCOPE = ["the input flush timer (flush_input / ttimeoutlen) is the third-layer model (pending deadline moved "
                  "by every read); its cases keep every gap inside an escape sequence below ttimeoutlen (a longer stop "
-                 "legitimately yields a lone Escape); the key processor's flush timer (_Flush / timeoutlen) is an "
+                 "legitimately yields a lone Escape); layer 4 has no flush event (its cases never let the timer "
+                 "fire); the key processor's flush timer (_Flush / timeoutlen) is an "
                  "event of the second-layer model only",
-                 "handlers that feed keys (c-j) are in the first layer only; the second layer's concrete registry "
+                 "handlers that feed keys (c-j) are in the first layer only; state-dependent exits (validator, c-d) in "
+                 "the second layer only; the second layer's concrete registry "
                  "covers the keys the scripts use (c-x prefix, c-x c-x, escape Enter, escape + unbound key, "
-                 "c-space c-c), its theorems cover every registry",
+                 "c-space c-c, c-d, validators none / non-empty / no-x), its theorems cover every registry",
                  "the CPR wait of the exit path (renderer.waiting_for_cpr branch of read_from_input, "
                  "wait_for_cpr_responses) is in the first-layer model only; `cpr_support` NOT_SUPPORTED (decided by a "
                  "2 s timer) is not modelled",
-                 "exceptions inside handlers (process_keys' reset()+empty_queue() path), run_in_terminal, "
-                 "several inputs/applications at once, validators that reject the line",
+                 "layer 4: the normal-mode generator is a parameter of the theorems (its concrete copy over the "
+                 "regenerated table is what the driver runs); a paste body is assumed not to complete the end mark "
+                 "early (CleanBody; the first ESC[201~ ends a paste by definition); paste + numeric argument and "
+                 "line-oriented editing keys after a pasted line ending are not generated (single-line reference editor)",
+                 "layer 5: different Input OBJECTS with the same hash (a new Vt100Input on the same fd for every "
+                 "prompt(), as the prompt() shortcut does) share the store but not the parser: bytes of an incomplete "
+                 "escape sequence or an unfinished paste left in the old object's parser at accept time are not "
+                 "carried over - observed, outside the property's 'same input'; not modelled",
+                 "exceptions escaping a handler (process_keys: reset() replaces the queue, so the keys queued behind "
+                 "the raising key are dropped, then the exception goes to the loop's handler and a nested 'Press "
+                 "ENTER' prompt reads the input): handler code that raises is outside the property's quantifier; "
+                 "run_in_terminal / suspend, Application.exit() from a background task, erase_when_done, pre_run "
+                 "callables that feed keys, accept_default are not modelled",
                  "OS pipe, thread and event-loop scheduling: sampled by the e2e cases, not proved"]
 
 BASE = 0x110000
@@ -128,15 +183,31 @@ SPECIAL = {
     "CE": (b"\x05", BASE + 9), "CB": (b"\x02", BASE + 10), "CF": (b"\x06", BASE + 11),
     # second layer (key buffer): prefix keys
     "CX": (b"\x18", BASE + 13), "CSPACE": (b"\x00", BASE + 14),
+    # c-d: EOFError on an empty buffer, delete-char otherwise (state dependent: second layer only)
+    "CD": (b"\x04", BASE + 15),
 }
 ESC = BASE + 12
-KEY_CODE = {
-    Keys.ControlM: -1, Keys.ControlC: -2, Keys.CPRResponse: -3, Keys.ControlJ: -4,
-    Keys.ControlH: BASE + 0, Keys.Delete: BASE + 1, Keys.Left: BASE + 2, Keys.Right: BASE + 3,
-    Keys.Home: BASE + 4, Keys.End: BASE + 5, Keys.ControlK: BASE + 6, Keys.ControlU: BASE + 7,
-    Keys.ControlA: BASE + 8, Keys.ControlE: BASE + 9, Keys.ControlB: BASE + 10, Keys.ControlF: BASE + 11,
-    Keys.Escape: BASE + 12, Keys.ControlX: BASE + 13, Keys.ControlAt: BASE + 14,
-}
+KEY_CODE = gen_c17.key_codes()          # the same table that generates lean/Ptk/Gen/C17.lean
+PASTE_BASE = gen_c17.PASTE_BASE
+enc_text = gen_c17.enc_text
+PASTE_START, PASTE_END = b"\x1b[200~", b"\x1b[201~"
+try:
+    sys.set_int_max_str_digits(0)       # a paste key code is a big number
+except AttributeError:
+    pass
+
+
+def read_count() -> int:
+    """how many bytes one `PosixStdinReader.read()` returns at most (1024 today), from the code"""
+    import inspect
+    from prompt_toolkit.input.posix_utils import PosixStdinReader
+    try:
+        return int(inspect.signature(PosixStdinReader.read).parameters["count"].default)
+    except Exception:  # noqa
+        return 1024
+
+
+READ_COUNT = read_count()
 FIN = ("ENTER", "CJ", "CC", "EENTER")
 WATCHDOG_S = float(os.environ.get("VERIF_C17_WATCHDOG", "10"))
 
@@ -156,6 +227,8 @@ def tok_bytes(t: str) -> bytes:
         return b"\x1b" + t[3:].encode("utf-8")
     if t.startswith("EARG:"):              # escape digit: numeric argument
         return b"\x1b" + t[5:].encode()
+    if t.startswith("PASTE:"):             # bracketed paste: ONE key press carrying the text
+        return PASTE_START + t[6:].encode("utf-8") + PASTE_END
     if t in SPECIAL:
         return SPECIAL[t][0]
     assert len(t) == 1, t
@@ -165,6 +238,8 @@ def tok_bytes(t: str) -> bytes:
 def tok_code(t: str) -> int:
     if t.startswith("CPR:"):
         return -3
+    if t.startswith("PASTE:"):
+        return PASTE_BASE + enc_text(t[6:])
     if t in SPECIAL:
         return SPECIAL[t][1]
     return ord(t)
@@ -201,13 +276,22 @@ def typed_text(t: str):
         return [t]
     if t.startswith("EX:"):
         return [t[3:]]
+    if t.startswith("PASTE:"):
+        return list(paste_shown(t[6:]))
     return []
+
+
+def paste_shown(text: str) -> str:
+    """what a paste puts into the line: the pasted text with `\\n` line endings"""
+    return text.replace("\r\n", "\n").replace("\r", "\n")
 
 
 def kp_code(kp) -> int:
     if kp is _Flush:
         return BASE + 998
     k = kp.key
+    if k == Keys.BracketedPaste:
+        return PASTE_BASE + enc_text(kp.data)
     if k in KEY_CODE:
         return KEY_CODE[k]
     if isinstance(k, str) and not isinstance(k, Keys) and len(k) == 1:
@@ -244,6 +328,12 @@ def make_session(inp, case, **kw):
         assert out.responds_to_cpr
     else:
         out = DummyOutput()
+    if case.get("val"):
+        kw["validator"] = make_validator(case["val"])
+        # (with the default, an asynchronous validation runs after every change and may or may not have
+        #  cached its verdict when Enter is processed: whether a rejected Enter moves the cursor would
+        #  then depend on the timing)
+        kw["validate_while_typing"] = False
     session = PromptSession(input=inp, output=out, **kw)
     if case.get("out") == "cpr":
         r = session.app.renderer
@@ -255,6 +345,26 @@ def make_session(inp, case, **kw):
 
 class Abort(Exception):
     """interrupt_exception used where a KeyboardInterrupt would tear down the harness' own loop"""
+
+
+class Eof(Exception):
+    """eof_exception of the sessions (c-d on an empty buffer); the harness itself ends prompts that
+    are still waiting at the end of a schedule with a plain EOFError, which is not a result"""
+
+
+def valid_text(val, text: str) -> bool:
+    """the validators of the cases, by number (the model's `Emacs.valid`)"""
+    if val == 1:
+        return text != ""
+    if val == 2:
+        return "x" not in text
+    return True
+
+
+def make_validator(val):
+    from prompt_toolkit.validation import Validator
+    return Validator.from_callable(lambda t: valid_text(val, t), error_message="rejected",
+                                   move_cursor_to_end=(val == 2))
 
 
 class _Run:
@@ -286,7 +396,7 @@ async def _step_async(case) -> _Run:
     loop = asyncio.get_running_loop()
     k = case["k"]
     with create_pipe_input() as inp:
-        session = make_session(inp, case, interrupt_exception=Abort)
+        session = make_session(inp, case, interrupt_exception=Abort, eof_exception=Eof)
         app = session.app
         fd = inp.fileno()
         cpr_out = case.get("out") == "cpr"
@@ -326,9 +436,15 @@ async def _step_async(case) -> _Run:
 
         inp.stdin_reader.read = limited_read
         layer_b = case.get("layer") == "B"
+        layer_p = case.get("layer") == "P"
         if layer_b:
             # the `timeoutlen` timer fires only inside a T event (which sleeps); nothing else sleeps
             app.timeoutlen = 0.001
+        if layer_p:
+            # chunk boundaries inside escape sequences / paste marks: no flush timer may decide anything
+            # (a stalled machine must not turn a pending ESC into an Escape key)
+            app.ttimeoutlen = 100000.0
+            app.timeoutlen = None
         task = None
         last_cb = None
         typed_chars = set()
@@ -338,6 +454,8 @@ async def _step_async(case) -> _Run:
             f = app.future
             if f is None or not f.done():
                 return "N"
+            if isinstance(f.exception(), Eof):
+                return "-5"
             return "-2" if f.exception() is not None else "-1"
 
         def observe():
@@ -356,8 +474,16 @@ async def _step_async(case) -> _Run:
             else:
                 kb = ""
             exw = "" if layer_b else f"ex={int(in_wait[0])} w={len(app.renderer._waiting_for_cpr_futures)} "
+            pz = ""
+            if layer_p:
+                vp = inp.vt100_parser
+                inpaste = bool(vp._in_bracketed_paste)
+                fr = vp._input_parser.gi_frame
+                pre = fr.f_locals.get("prefix", "") if fr is not None else "?"
+                pz = (f" pm={int(inpaste)} pb={enc_str(vp._paste_buffer) if inpaste else '-'} "
+                      f"pre={enc_str(pre)}")
             run.lines.append(f"run={int(running)} {exw}done={done_kind()} buf={buf} {kb}q={enc_keys(q)} "
-                             f"ta={enc_keys(ta)} res={enc_res(run.results)}")
+                             f"ta={enc_keys(ta)} res={enc_res(run.results)}{pz}")
             if app.is_done and app.key_processor.key_buffer:
                 run.notes.append(("key buffer | keys left in the key buffer of a finished application",
                                   str([kp_code(x) for x in app.key_processor.key_buffer])))
@@ -399,16 +525,34 @@ async def _step_async(case) -> _Run:
                 run.results.append((-1, r))
             except Abort:
                 run.results.append((-2, session.default_buffer.text))
+            except Eof:
+                run.results.append((-5, session.default_buffer.text))
             except asyncio.TimeoutError:
                 run.results.append((-9, "TIMEOUT"))
             except BaseException as e:  # noqa
                 run.results.append((-9, "EXC:" + type(e).__name__))
             task = None
 
+        if layer_p:
+            for t in case["script"]:
+                typed_chars.update(typed_text(t))
         observe()
         for ev in case["events"]:
             op = ev[0]
-            if op == "W":
+            if op == "W" and layer_p:
+                inp.send_bytes(ev[1].encode("utf-8"))
+            elif op == "R" and layer_p:
+                # `stdin_reader.read()` returns at most ev[1] bytes this time
+                limit[0] = max(1, min(READ_COUNT, ev[1]))
+                cb = _vt100._current_callbacks.get((loop, fd)) or last_cb
+                if cb is not None:
+                    try:
+                        cb()
+                    except Exception as e:  # noqa
+                        run.notes.append(("read_from_input | raised " + type(e).__name__, str(e)[:200]))
+                        run.lines.append("exception in read_from_input: " + type(e).__name__)
+                limit[0] = READ_COUNT
+            elif op == "W":
                 for it in ev[1]:
                     bs = item_bytes(it)
                     pipe_toks.append([it, len(bs)])
@@ -473,6 +617,7 @@ async def _step_async(case) -> _Run:
                     if app.is_done or not app._is_running:
                         await collect()
             observe()
+        run.open_prompt = task is not None and app._is_running
         if task is not None:
             # prompt still waiting for input: end it (not part of the comparison)
             if app.future is not None and not app.is_done and app._is_running:
@@ -507,7 +652,7 @@ def _split(data: bytes, cuts):
 
 def _chunks_of(case):
     toks = case["script"]
-    if case["mode"] == "threadbytes":
+    if case["mode"] in ("threadbytes", "asyncbytes") or case.get("layer") == "P":
         return _split(b"".join(tok_bytes(t) for t in toks), case["cuts"])
     # cuts are token indices
     out, a = [], 0
@@ -525,7 +670,7 @@ def _e2e_sync(case) -> _Run:
     chunks = _chunks_of(case)
     delays = case.get("delays") or [0]
     with create_pipe_input() as inp:
-        session = PromptSession(input=inp, output=DummyOutput())
+        session = make_session(inp, case, eof_exception=Eof)
         app = session.app
         if case.get("tt") is not None:
             app.ttimeoutlen = case["tt"]
@@ -560,10 +705,14 @@ def _e2e_sync(case) -> _Run:
             timer.daemon = True
             timer.start()
             try:
-                r = session.prompt()
+                # (in_thread: the application runs in a thread of its own with its own event loop;
+                #  the type-ahead store is the same module-level dict)
+                r = session.prompt(in_thread=bool(case.get("in_thread")))
                 run.results.append((-1, r))
             except KeyboardInterrupt:
                 run.results.append((-2, session.default_buffer.text))
+            except Eof:
+                run.results.append((-5, session.default_buffer.text))
             except TimeoutError:
                 run.results.append((-9, "TIMEOUT"))
             except BaseException as e:  # noqa
@@ -585,7 +734,7 @@ async def _e2e_async(case) -> _Run:
     chunks = _chunks_of(case)
     delays = case.get("delays") or [0]
     with create_pipe_input() as inp:
-        session = make_session(inp, case, interrupt_exception=Abort)
+        session = make_session(inp, case, interrupt_exception=Abort, eof_exception=Eof)
         if case.get("tt") is not None:
             session.app.ttimeoutlen = case["tt"]
 
@@ -601,6 +750,8 @@ async def _e2e_async(case) -> _Run:
                 run.results.append((-1, r))
             except Abort:
                 run.results.append((-2, session.default_buffer.text))
+            except Eof:
+                run.results.append((-5, session.default_buffer.text))
             except asyncio.TimeoutError:
                 run.results.append((-9, "TIMEOUT"))
             except BaseException as e:  # noqa
@@ -610,6 +761,167 @@ async def _e2e_async(case) -> _Run:
         except BaseException:  # noqa
             pass
         run.leftover = [c for c in (kp_code(x) for x in _drain(inp)) if c != -3]
+    return run
+
+
+# ------------------------------------------------------------------ real code: several inputs, one store
+class _PipeCtl:
+    """one pipe input whose `stdin_reader.read` can be told how many key presses to deliver"""
+
+    def __init__(self, inp):
+        self.inp = inp
+        self.fd = inp.fileno()
+        self.limit = READ_COUNT
+        self.toks = []                      # [token, bytes left] written and not yet read
+        self._orig = inp.stdin_reader.read
+        inp.stdin_reader.read = self._read
+
+    def _read(self, count: int = 1024) -> str:
+        if not select.select([self.fd], [], [], 0)[0]:
+            return self._orig(count)
+        n = min(count, self.limit)
+        data = self._orig(n)
+        left = n
+        while left > 0 and self.toks:
+            if self.toks[0][1] <= left:
+                left -= self.toks[0][1]
+                self.toks.pop(0)
+            else:
+                self.toks[0][1] -= left
+                left = 0
+        return data
+
+    def write(self, toks):
+        for t in toks:
+            self.toks.append([t, len(tok_bytes(t))])
+        self.inp.send_bytes(b"".join(tok_bytes(t) for t in toks))
+
+    def set_keys(self, n):
+        nbytes = sum(b for _, b in self.toks[:n])
+        self.limit = max(1, min(READ_COUNT, nbytes)) if n < len(self.toks) else READ_COUNT
+
+    def restore(self):
+        self.inp.stdin_reader.read = self._orig
+
+
+async def prompt_in_own_app_session(session, inp):
+    """applications that run at the same time need an AppSession each (`get_app()` is a field of the
+    current AppSession): the documented way to serve several inputs from one event loop"""
+    from prompt_toolkit.application.current import create_app_session
+    with create_app_session(input=inp, output=DummyOutput()):
+        return await session.prompt_async()
+
+
+async def _step_multi_async(case) -> _Run:
+    """two pipe inputs A/B (different type-ahead hashes), two PromptSessions per input (the store is
+    keyed by the input, not by the session), all in one event loop; events carry the input index"""
+    run = _Run()
+    run.mres = [[], []]
+    run.mleft = [[], []]
+    loop = asyncio.get_running_loop()
+    ks = case["ks"]
+    with create_pipe_input() as inp_a, create_pipe_input() as inp_b:
+        inps = [inp_a, inp_b]
+        ctl = [_PipeCtl(i) for i in inps]
+        sessions = [[PromptSession(input=i, output=DummyOutput(), interrupt_exception=Abort) for _ in range(2)]
+                    for i in inps]
+        cur = [None, None]                  # the session whose prompt runs on this input
+        tasks = [None, None]
+        last_cb = [None, None]
+        typed = [set(), set()]
+        if inp_a.typeahead_hash() == inp_b.typeahead_hash():
+            run.notes.append(("typeahead | two different pipe inputs file their type-ahead under the same hash",
+                              inp_a.typeahead_hash()))
+
+        def obs_one(i):
+            sess = cur[i]
+            app = sess.app if sess is not None else None
+            running = bool(app is not None and app._is_running)
+            if running:
+                b = sess.default_buffer
+                buf = f"{enc_str(b.text)} {b.cursor_position}"
+                f = app.future
+                done = "N" if f is None or not f.done() else ("-2" if f.exception() is not None else "-1")
+                q = [kp_code(x) for x in app.key_processor.input_queue]
+                if any(c not in typed[i] for c in b.text):
+                    run.notes.append(("buffer | text that was never typed on THIS input", repr(b.text)))
+            else:
+                buf, done, q = "- -", "N", []
+            ta = [kp_code(x) for x in _typeahead_peek(inps[i])]
+            return (f"run={int(running)} ex=0 w=0 done={done} buf={buf} q={enc_keys(q)} "
+                    f"ta={enc_keys(ta)} res={enc_res(run.mres[i])}")
+
+        def observe():
+            nkeys = len(set(x.typeahead_hash() for x in inps) & set(_typeahead._buffer.keys()))
+            run.lines.append(f"A[{obs_one(0)}] B[{obs_one(1)}]")
+
+        async def collect(i):
+            try:
+                r = await asyncio.wait_for(tasks[i], WATCHDOG_S)
+                run.mres[i].append((-1, r))
+            except Abort:
+                run.mres[i].append((-2, cur[i].default_buffer.text))
+            except asyncio.TimeoutError:
+                run.mres[i].append((-9, "TIMEOUT"))
+            except BaseException as e:  # noqa
+                run.mres[i].append((-9, "EXC:" + type(e).__name__))
+            tasks[i] = None
+            cur[i] = None
+
+        observe()
+        for ev in case["events"]:
+            op, i = ev[0], ev[1]
+            if op == "W":
+                for t in ev[2]:
+                    typed[i].update(typed_text(t))
+                ctl[i].write(ev[2])
+            elif op == "S":
+                # finished applications (on whichever input) leave first: once the new prompt is attached
+                # with unread bytes in its pipe the stepper must not await (the loop would read them)
+                for j in (0, 1):
+                    if tasks[j] is not None and (tasks[j].done() or cur[j].app.is_done
+                                                 or not cur[j].app._is_running):
+                        await collect(j)
+                if tasks[i] is None and len(run.mres[i]) < ks[i]:
+                    cur[i] = sessions[i][ev[2] % 2]
+                    tasks[i] = loop.create_task(prompt_in_own_app_session(cur[i], inps[i]))
+                    await asyncio.sleep(0)
+                    last_cb[i] = _vt100._current_callbacks.get((loop, ctl[i].fd)) or last_cb[i]
+                    if not cur[i].app._is_running:
+                        await collect(i)
+            elif op == "R":
+                ctl[i].set_keys(ev[2])
+                cb = _vt100._current_callbacks.get((loop, ctl[i].fd)) or last_cb[i]
+                if cb is not None:
+                    try:
+                        cb()
+                    except Exception as e:  # noqa
+                        run.notes.append(("read_from_input | raised " + type(e).__name__, str(e)[:200]))
+                ctl[i].limit = READ_COUNT
+            elif op == "F":
+                if tasks[i] is not None and cur[i].app.is_done and cur[i].app._is_running:
+                    await collect(i)
+            if op == "F":
+                # the stepper has awaited: the loop ran every application whose result is set to its end
+                for j in (0, 1):
+                    if tasks[j] is not None and (tasks[j].done() or cur[j].app.is_done
+                                                 or not cur[j].app._is_running):
+                        await collect(j)
+            observe()
+        for i in (0, 1):
+            if tasks[i] is not None:
+                app = cur[i].app
+                if app.future is not None and not app.is_done and app._is_running:
+                    app.exit(exception=EOFError())
+                try:
+                    await asyncio.wait_for(tasks[i], WATCHDOG_S)
+                except BaseException:  # noqa
+                    pass
+            ctl[i].restore()
+            run.mleft[i] = [c for c in (kp_code(x) for x in _drain(inps[i])) if c != -3]
+        run.lines.append(f"A[res={enc_res(run.mres[0])} left={enc_keys(run.mleft[0])}] "
+                         f"B[res={enc_res(run.mres[1])} left={enc_keys(run.mleft[1])}]")
+        run.results = run.mres[0] + run.mres[1]
     return run
 
 
@@ -630,9 +942,11 @@ def real_run(case) -> _Run:
         run.lines = ["skipped: repeated hangs in this worker"]
         _LAST[0], _LAST[1] = key, run
         return run
-    if case["kind"] == "step":
+    if case.get("layer") == "M":
+        run = _new_loop_run(_step_multi_async(case))
+    elif case["kind"] == "step":
         run = _new_loop_run(_step_async(case), vclock=bool(case.get("vclock")))
-    elif case["mode"] in ("async", "cprwait"):
+    elif case["mode"] in ("async", "cprwait", "asyncbytes"):
         run = _new_loop_run(_e2e_async(case))
     else:
         run = _e2e_sync(case)
@@ -667,10 +981,35 @@ def _new_loop_run(coro, vclock=False):
 
 
 # ------------------------------------------------------------------ protocol
+def model_lines_m(case):
+    out = [f"Minit {case['ks'][0]} {case['ks'][1]}"]
+    for ev in case["events"]:
+        if ev[0] == "W":
+            out.append(f"MW {ev[1]} " + enc_keys(c for t in ev[2] for c in tok_codes(t)))
+        elif ev[0] == "S":
+            out.append(f"MS {ev[1]}")
+        elif ev[0] == "R":
+            out.append(f"MR {ev[1]} {ev[2]}")
+        else:
+            out.append(f"MF {ev[1]}")
+    out.append("MEND")
+    return out
+
+
 def model_lines(case):
+    if case.get("layer") == "P":
+        return model_lines_p(case)
+    if case.get("layer") == "M":
+        return model_lines_m(case)
     pre = "B" if case.get("layer") == "B" else ""
+    val = case.get("val") or 0
+    if pre and val:
+        e2e = lambda sched: f"BE2EV {case['k']} {val} " + _sched_tokens(sched)   # noqa: E731
+    else:
+        e2e = lambda sched: f"{pre}E2E " + str(case["k"]) + _rflag(case, pre) + " " + _sched_tokens(sched)  # noqa: E731
     if case["kind"] == "step":
-        out = [f"{pre}init {case['k']}" + ("" if pre else f" {int(case.get('out') == 'cpr')}")]
+        out = [f"BinitV {case['k']} {val}" if pre and val else
+               f"{pre}init {case['k']}" + ("" if pre else f" {int(case.get('out') == 'cpr')}")]
         for ev in case["events"]:
             if ev[0] == "W":
                 out.append(f"{pre}W " + enc_keys(c for t in item_tokens(ev[1]) for c in tok_codes(t)))
@@ -681,9 +1020,37 @@ def model_lines(case):
         if case.get("vclock"):
             out.append(_flush_line(case))       # (reply compared with what the input object delivered)
         # after the schedule: what is left unconsumed
-        out.append(f"{pre}E2E " + str(case["k"]) + _rflag(case, pre) + " " + _sched_tokens(case["events"]))
+        out.append(e2e(case["events"]))
         return out
-    return [f"{pre}E2E " + str(case["k"]) + _rflag(case, pre) + " " + _sched_tokens(case["msched"])]
+    return [e2e(case["msched"])]
+
+
+def _sched_tokens_p(events):
+    out = []
+    for ev in events:
+        if ev[0] == "W":
+            out.append("w " + enc_str(ev[1]))
+        elif ev[0] == "R":
+            out.append(f"r {max(1, min(READ_COUNT, ev[1]))}")
+        else:
+            out.append(ev[0].lower())
+    return " ".join(out)
+
+
+def model_lines_p(case):
+    """fourth layer: the schedule is in CHARACTERS (the step cases are ASCII: 1 byte = 1 character)"""
+    if case["kind"] == "step":
+        out = [f"Pinit {case['k']}"]
+        for ev in case["events"]:
+            if ev[0] == "W":
+                out.append("PW " + enc_str(ev[1]))
+            elif ev[0] == "R":
+                out.append(f"PR {max(1, min(READ_COUNT, ev[1]))}")
+            else:
+                out.append("P" + ev[0])
+        out.append(f"PE2E {case['k']} " + _sched_tokens_p(case["events"]))
+        return out
+    return [f"PE2E {case['k']} " + _sched_tokens_p(case["msched"])]
 
 
 def _rflag(case, pre):
@@ -725,6 +1092,8 @@ def _flush_line(case):
 
 def impl_lines(case):
     run = real_run(case)
+    if case.get("layer") == "M":
+        return run.lines
     final = f"run=0 res={enc_res(run.results)} left={enc_keys(run.leftover)}"
     if case["kind"] == "step":
         return run.lines + [_step_final(case, run)]
@@ -734,13 +1103,16 @@ def impl_lines(case):
 def _step_final(case, run):
     # the stepper ends every still-running prompt; the model line reports the state after the
     # schedule, so only complete schedules (generator guarantees it) end with run=0
-    return f"run=0 res={enc_res(run.results)} left={enc_keys(run.leftover)}"
+    return f"run={int(bool(getattr(run, 'open_prompt', False)))} res={enc_res(run.results)} left={enc_keys(run.leftover)}"
 
 
 # ------------------------------------------------------------------ oracle (independent of the model)
-def expected(tokens, k):
+def expected(tokens, k, val=0):
     """The property, restated: the typed keys, cut at the accepting keys, edited by the obvious
-    reference editor; CPR reports are not keys.  -> (results, leftover key codes)"""
+    reference editor; CPR reports are not keys.  -> (results, leftover key codes)
+    With a validator an Enter on a line it rejects is NOT an accepting key: the line stays, the
+    cursor goes where the validator points (start; validator 2: end), typing goes on.  c-d ends the
+    prompt (EOFError) on an empty line and deletes the character under the cursor otherwise."""
     results, text, cur = [], [], 0
     i = 0
     n = len(tokens)
@@ -751,7 +1123,12 @@ def expected(tokens, k):
         a, arg[0] = arg[0], None
         return 1 if a is None or a >= 1000000 else a
 
+    rejected = [False]                     # the validator has rejected exactly this text (verdict cached)
+    snapshot = []
     while i < n and len(results) < k:
+        if text != snapshot:
+            rejected[0] = False            # a text change forgets the verdict (cursor movements do not)
+            snapshot = list(text)
         t = tokens[i]
         i += 1
         if t.startswith("CPR:"):
@@ -778,10 +1155,28 @@ def expected(tokens, k):
         if t.startswith("EX:"):            # escape is ignored (it uses up the argument), the character is typed
             count()
             t = t[3:]
+        if t.startswith("PASTE:"):         # the pasted text goes in at the cursor, as text (an Enter inside is text)
+            count()
+            ins = list(paste_shown(t[6:]))
+            text[cur:cur] = ins
+            cur += len(ins)
+            continue
         if t in ("ENTER", "CJ", "EENTER"):
+            if not valid_text(val, "".join(text)):
+                count()
+                if not rejected[0]:        # the cursor goes to the error position when the validator is asked
+                    cur = len(text) if val == 2 else 0
+                rejected[0] = True
+                continue
             results.append((-1, "".join(text)))
             text, cur = [], 0
             arg[0] = None
+        elif t == "CD" and not text:
+            results.append((-5, ""))
+            text, cur = [], 0
+            arg[0] = None
+        elif t == "CD":
+            del text[cur:cur + count()]
         elif t == "CC":
             results.append((-2, "".join(text)))
             text, cur = [], 0
@@ -818,12 +1213,59 @@ def expected(tokens, k):
 
 
 def case_tokens(case):
-    if case["kind"] == "step":
+    if case.get("layer") == "M":
+        return [t for ev in case["events"] if ev[0] == "W" for t in ev[2]]
+    if case["kind"] == "step" and case.get("layer") != "P":
         return [t for ev in case["events"] if ev[0] == "W" for t in item_tokens(ev[1])]
     return list(case["script"])
 
 
+def oracle_m(case):
+    """several inputs: every input, on its own, satisfies the property for the keys typed on IT"""
+    run = real_run(case)
+    v, seen = [], set()
+
+    def bad(sig, msg):
+        if sig not in seen:
+            seen.add(sig)
+            v.append({"signature": sig, "msg": msg + f" | results={run.mres!r} leftover={run.mleft!r}"})
+
+    if not hasattr(run, "mres"):
+        bad("prompt() | did not return (accepting key lost)", "skipped after repeated hangs")
+        return v
+    for i in (0, 1):
+        toks = [t for ev in case["events"] if ev[0] == "W" and ev[1] == i for t in ev[2]]
+        res = run.mres[i]
+        exp_res, exp_left = expected(toks, len(res))
+        typed = {c for t in toks for c in typed_text(t)}
+        name = "AB"[i]
+        for j, (kind, text) in enumerate(res):
+            if kind == -9:
+                bad("prompt() | did not return (accepting key lost)" if text == "TIMEOUT"
+                    else "prompt() | raised " + text, f"input {name} prompt #{j + 1}: {text}")
+                continue
+            if any(c not in typed for c in text):
+                bad("typeahead | keys of another input (or untyped text) appear in the line",
+                    f"input {name} prompt #{j + 1} returned {text!r}")
+            elif j >= len(exp_res):
+                bad("prompt() | returned although no accepting key was typed for it", f"input {name} prompt #{j + 1}")
+            elif (kind, text) != exp_res[j]:
+                bad("prompt() | line differs from the typed line: keys lost, duplicated or misapplied",
+                    f"input {name} prompt #{j + 1}: got {(kind, text)!r}, typed {exp_res[j]!r}")
+        if len(res) < case["ks"][i]:
+            bad("prompt() | did not return (accepting key lost)",
+                f"input {name}: {len(res)} of {case['ks'][i]} prompts finished under a complete schedule")
+        elif run.mleft[i] != exp_left:
+            bad("typeahead | keys after the last accepting key lost, duplicated or reordered",
+                f"input {name}: unconsumed keys {run.mleft[i]} != typed {exp_left}")
+    for sig, msg in run.notes:
+        bad(sig, msg)
+    return v
+
+
 def oracle(case):
+    if case.get("layer") == "M":
+        return oracle_m(case)
     run = real_run(case)
     toks = case_tokens(case)
     v = []
@@ -835,7 +1277,7 @@ def oracle(case):
             v.append({"signature": sig, "msg": msg + f" | results={run.results!r} leftover={run.leftover!r}"})
 
     nres = len(run.results)
-    exp_res, exp_left = expected(toks, nres if case["kind"] == "step" else case["k"])
+    exp_res, exp_left = expected(toks, nres if case["kind"] == "step" else case["k"], case.get("val") or 0)
     # A flush-timer event in the middle of a schedule legitimately changes what a pending prefix
     # key (c-x) means (that is what `timeoutlen` is for); the reference editor below knows no
     # timers, so for such schedules only the timer-independent parts of the property are checked
@@ -858,7 +1300,7 @@ def oracle(case):
             continue
         ek, et = exp_res[i]
         if kind != ek:
-            bad("prompt() | ended the wrong way (accept vs abort)", f"prompt #{i + 1}: {kind} != {ek}")
+            bad("prompt() | ended the wrong way (accept vs abort vs EOF)", f"prompt #{i + 1}: {kind} != {ek}")
         elif text != et and timer_sensitive:
             pass
         elif text != et:
@@ -1195,10 +1637,12 @@ def rand_events_b(rng, units):
     return ev
 
 
-def mk_e2e_b(rng, mode, units):
+def mk_e2e_b(rng, mode, units, val=0):
     toks = flatten_units(units)
-    k = fins(toks)
+    k = lines_of(toks, val) if (val or "CD" in toks) else fins(toks)
     case = {"kind": "e2e", "layer": "B", "mode": mode, "k": k, "script": toks}
+    if val:
+        case["val"] = val
     if mode == "pre":
         case["cuts"] = []
     else:
@@ -1224,6 +1668,359 @@ def mk_e2e_b(rng, mode, units):
         sched += [["S"], ["R", 100000], ["T"], ["F"]]
     case["msched"] = sched
     return case
+
+
+# ---- fourth layer: the byte parser's bracketed-paste mode under chunked reads
+P_BODIES = ["x", "x\ry", "\x1b[20", "", "~\x1b[201", "p q", "\r", "1\r\n2"]
+
+
+def script_bytes(toks) -> bytes:
+    return b"".join(tok_bytes(t) for t in toks)
+
+
+def completion_p(k, nbytes=0):
+    ev = []
+    for _ in range(k + 1):
+        ev += [["S"]] + [["R", 100000]] * (nbytes // READ_COUNT + 2) + [["F"]]
+    return ev
+
+
+def mk_step_p(script, events, k=None):
+    k = fins(script) if k is None else k
+    n = len(script_bytes(script))
+    return {"kind": "step", "layer": "P", "k": k, "script": list(script),
+            "events": events + completion_p(k, n), "complete": True}
+
+
+def pattern_events_p(data: bytes, cuts, pat):
+    """data is ASCII here; cuts = byte offsets of the chunk boundaries"""
+    chunks = [c.decode("ascii") for c in _split(data, cuts)]
+    ev = []
+    if pat == "wcut":          # write boundaries = read boundaries; every prompt ends as soon as it can
+        ev.append(["S"])
+        for c in chunks:
+            ev += [["W", c], ["R", 100000], ["F"], ["S"]]
+    elif pat == "rcut":        # everything is in the pipe; the READS are short
+        ev += [["W", data.decode("ascii")], ["S"]]
+        for c in chunks:
+            ev += [["R", len(c)], ["F"], ["S"]]
+    elif pat == "late":        # the finished prompt keeps reading (keys pile up behind the accepting key)
+        ev.append(["S"])
+        for c in chunks:
+            ev += [["W", c], ["R", 100000]]
+    elif pat == "pre":         # written before the first prompt, read in short reads
+        ev += [["W", c] for c in chunks] + [["S"]]
+        for c in chunks:
+            ev += [["R", len(c)]]
+    return ev
+
+
+def marker_cuts(toks):
+    """byte offsets strictly inside a paste start / end mark, and the others"""
+    inside, off = [], 0
+    for t in toks:
+        b = tok_bytes(t)
+        if t.startswith("PASTE:"):
+            inside += [off + j for j in range(1, len(PASTE_START))]
+            e = off + len(b) - len(PASTE_END)
+            inside += [e + j for j in range(1, len(PASTE_END))]
+        off += len(b)
+    return inside, off
+
+
+def rand_body(rng, rich=False):
+    r = rng.random()
+    if r < 0.35:
+        return rng.choice(P_BODIES)
+    chars = "abc xyz01\r~[2" + ("\x1b" if rng.random() < 0.3 else "") + ("éß世" if rich else "")
+    body = "".join(rng.choice(chars) for _ in range(rng.choice([1, 2, 3, 5, 9, 20])))
+    return body.replace("\x1b[201~", "")
+
+
+def rand_script_p(rng, nlines, rich=False, tail=None):
+    """lines of typed characters, editing keys and bracketed pastes; after a paste that contains a
+    line ending only characters and Backspace follow in that line (the reference editor is a
+    single-line one)"""
+    chars = "abcxyz01 -_" + ("éß世✓" if rich else "")
+    edits = ["BS", "DEL", "LEFT", "LEFT2", "RIGHT", "HOME", "END", "CK", "CU", "CA", "CE", "CB", "CF"]
+    toks = []
+    for _ in range(nlines):
+        multi = False
+        for _ in range(rng.choice([0, 1, 2, 3, 5, 8])):
+            r = rng.random()
+            if r < 0.25:
+                body = rand_body(rng, rich)
+                toks.append("PASTE:" + body)
+                multi = multi or ("\r" in body or "\n" in body)
+            elif r < 0.7 or multi:
+                toks.append(rng.choice(chars) if rng.random() < 0.85 or not multi else "BS")
+            else:
+                toks.append(rng.choice(edits))
+        toks.append(rng.choice(["ENTER"] * 6 + ["CJ", "CC"]))
+    if tail is None:
+        tail = rng.random() < 0.3
+    if tail:
+        for _ in range(rng.randrange(1, 4)):
+            toks.append(rng.choice(chars))
+    return toks
+
+
+def rand_events_p(rng, data: str):
+    """random schedule over CHARACTERS (ASCII): writes of any size, reads of any size"""
+    ev, i = [], 0
+    while i < len(data):
+        r = rng.random()
+        if r < 0.35:
+            n = rng.choice([1, 1, 2, 3, 4, 5, 7, 11, len(data)])
+            ev.append(["W", data[i:i + n]])
+            i += n
+        elif r < 0.65:
+            ev.append(["R", rng.choice([1, 1, 2, 3, 4, 5, 6, 9, 100000, 100000])])
+        elif r < 0.82:
+            ev.append(["S"])
+        else:
+            ev.append(["F"])
+    return ev
+
+
+def mk_e2e_p(rng, mode, toks, cuts=None, delays=None):
+    k = fins(toks)
+    data = script_bytes(toks)
+    inside, n = marker_cuts(toks)
+    case = {"kind": "e2e", "layer": "P", "mode": mode, "k": k, "script": list(toks), "tt": 30.0}
+    if mode == "pre":
+        case["cuts"] = [] if cuts is None else cuts
+    else:
+        if cuts is None:
+            # mostly inside the paste marks
+            ncut = rng.choice([1, 1, 2, 3, 5])
+            pool = inside if inside and rng.random() < 0.8 else list(range(1, max(2, n)))
+            cuts = sorted({rng.choice(pool) for _ in range(ncut)})
+        case["cuts"] = cuts
+        # the reader gets time to consume a chunk before the next one arrives (else no read boundary)
+        case["delays"] = delays or [rng.choice([0, 2, 4]), rng.choice([3, 5, 8]), rng.choice([2, 5])]
+        case["pdelay"] = rng.choice([0, 0, 1])
+    text = data.decode("utf-8")
+    sched = [["W", text]]
+    for _ in range(k + 1):
+        sched += [["S"]] + [["R", 100000]] * (len(text) // READ_COUNT + 2) + [["F"]]
+    case["msched"] = sched
+    return case
+
+
+def boundary_paste_script(d, where=1, pre="a"):
+    """a paste whose end mark starts d bytes before the `where`-th read boundary (1024 bytes)"""
+    head = [c for c in pre]
+    n0 = len(script_bytes(head)) + len(PASTE_START)
+    body = "x" * (where * READ_COUNT - d - n0)
+    return head + ["PASTE:" + body, "!", "ENTER", "b", "c", "ENTER"]
+
+
+def cases_p(tier, rng):
+    quick = tier == "quick"
+    # ---- exhaustive small scope: every split point of both paste marks (and everything else)
+    small = [(["a", "PASTE:x", "ENTER", "b", "ENTER"], ("wcut", "rcut", "late", "pre")),
+             (["a", "ENTER", "PASTE:x\ry", "b", "ENTER"], ("wcut", "rcut")),
+             (["PASTE:\x1b[20", "c", "ENTER"], ("wcut", "rcut")),
+             (["PASTE:", "ENTER", "PASTE:~\x1b[201", "ENTER"], ("wcut",)),
+             (["a", "LEFT", "PASTE:p q", "DEL", "CPR:3;7", "ENTER", "PASTE:\r", "z", "CC"], ("wcut", "late"))]
+    for toks, pats in small:
+        data = script_bytes(toks)
+        for c in range(1, len(data)):
+            for pat in pats:
+                yield mk_step_p(toks, pattern_events_p(data, [c], pat))
+        yield mk_step_p(toks, pattern_events_p(data, [], "wcut"))
+    # two cuts: both inside the marks of the first script (quick) / all pairs (thorough)
+    toks = small[0][0]
+    data = script_bytes(toks)
+    inside, n = marker_cuts(toks)
+    pool = inside if quick else list(range(1, n))
+    for i, c1 in enumerate(pool):
+        for c2 in pool[i + 1:]:
+            yield mk_step_p(toks, pattern_events_p(data, [c1, c2], "rcut" if (c1 + c2) % 2 else "wcut"))
+    # byte by byte
+    for toks, _ in small[:3]:
+        data = script_bytes(toks)
+        yield mk_step_p(toks, pattern_events_p(data, list(range(1, len(data))), "rcut"))
+        yield mk_step_p(toks, pattern_events_p(data, list(range(1, len(data))), "wcut"))
+    # ---- the read boundary of PosixStdinReader (1024 bytes) inside the end mark of a long paste
+    for d in range(0, len(PASTE_END) + 1):
+        for where in ((1,) if quick else (1, 2)):
+            toks = boundary_paste_script(d, where)
+            data = script_bytes(toks).decode("ascii")
+            yield mk_step_p(toks, [["W", data], ["S"]])
+            yield mk_e2e_p(rng, "pre", toks)
+    # ---- seeded random step cases
+    for _ in range(60 if quick else 1500):
+        toks = inject_cpr(rng, rand_script_p(rng, rng.choice([1, 2, 2, 3]), tail=False), p=rng.choice([0, 0, 0.1]))
+        k = fins(toks)
+        if rng.random() < 0.15:
+            k = max(1, k - 1)
+        yield mk_step_p(toks, rand_events_p(rng, script_bytes(toks).decode("ascii")), k)
+    # ---- end to end: the demo shape with a cut at every position inside both marks
+    demo = ["a", "b", "PASTE:pasted text", "!", "ENTER", "n", "e", "x", "t", "LEFT", "LEFT", "x", "ENTER"]
+    inside, _ = marker_cuts(demo)
+    for j, c in enumerate(inside):
+        if quick and j % 2:
+            continue
+        yield mk_e2e_p(rng, ["threadbytes", "asyncbytes"][j % 4 // 2], demo, cuts=[c], delays=[0, 12])
+    # ---- end to end: seeded scripts (multi-byte text too), cuts mostly inside the marks
+    for i in range(30 if quick else 600):
+        toks = inject_cpr(rng, rand_script_p(rng, rng.choice([1, 2, 3, 4]), rich=True), p=rng.choice([0, 0, 0.1]))
+        if not any(t.startswith("PASTE:") for t in toks):
+            # (no line ending in this one: line-oriented editing keys may follow)
+            toks.insert(0, "PASTE:" + rand_body(rng, True).replace("\r", "").replace("\n", ""))
+        yield mk_e2e_p(rng, ["threadbytes", "asyncbytes", "pre"][i % 3], toks)
+
+
+# ---- fifth layer: two inputs, one type-ahead store
+def interleavings(a, b):
+    """all merges of two event lists that keep each list's order"""
+    if not a:
+        yield list(b)
+        return
+    if not b:
+        yield list(a)
+        return
+    for rest in interleavings(a[1:], b):
+        yield [a[0]] + rest
+    for rest in interleavings(a, b[1:]):
+        yield [b[0]] + rest
+
+
+def completion_m(ks):
+    ev = []
+    for _ in range(max(ks) + 1):
+        for i in (0, 1):
+            ev += [["S", i, 0], ["R", i, 100000], ["F", i]]
+    return ev
+
+
+def mk_step_m(events, ks):
+    return {"kind": "step", "layer": "M", "k": sum(ks), "ks": list(ks),
+            "events": events + completion_m(ks), "complete": True}
+
+
+def input_blocks(rng, i, toks, sizes, sess0=0, prefeed=False):
+    """the events of one input as BLOCKS: inside a block the stepper never awaits with unread bytes
+    in the pipe of a running application (an await lets the event loop read them by itself, at a
+    moment the schedule does not control); blocks of the two inputs are interleaved freely"""
+    blocks, a, j = [], 0, sess0
+    chunks = []
+    for sz in sizes:
+        chunks.append(toks[a:a + sz])
+        a += sz
+    if a < len(toks):
+        chunks.append(toks[a:])
+    first = True
+    for c in chunks:
+        rd = [["R", i, rng.choice([1, 2])]] if rng.random() < 0.3 else []
+        if first and prefeed:
+            blocks.append([["W", i, c], ["S", i, j]] + rd + [["R", i, 100000]])
+        else:
+            if first:
+                blocks.append([["S", i, j]])
+            blocks.append([["W", i, c]] + rd + [["R", i, 100000]])
+        first = False
+        if rng.random() < 0.7:
+            j += 1
+            blocks.append([["F", i]])
+            blocks.append([["S", i, j], ["R", i, 100000]])
+    return blocks
+
+
+def cases_m(tier, rng):
+    quick = tier == "quick"
+    ta = ["a", "ENTER", "b", "ENTER"]
+    tb = ["x", "ENTER", "y", "CC"]
+    # every interleaving of the blocks of two inputs that both have type-ahead
+    ba = [[["S", 0, 0]], [["W", 0, ta], ["R", 0, 100000]], [["F", 0]], [["S", 0, 1]]]
+    bb = [[["S", 1, 0]], [["W", 1, tb], ["R", 1, 100000]], [["F", 1]], [["S", 1, 1]]]
+    for merged in interleavings(ba, bb):
+        yield mk_step_m([e for blk in merged for e in blk], (2, 2))
+    # pre-fed inputs, partial reads, alternating sessions, CPR reports: sampled interleavings
+    variants = [[4], [2, 2], [1, 3], [1, 1, 2], [3]]
+    nsample = 24 if quick else 600
+    for _ in range(nsample):
+        sa, sb = rng.choice(variants), rng.choice(variants)
+        toks_a = inject_cpr(rng, rng.choice([ta, ["a", "b", "ENTER", "ENTER"], ["ENTER", "a", "b", "CC"]]),
+                            p=rng.choice([0, 0.2]))
+        toks_b = rng.choice([tb, ["x", "y", "ENTER", "x"], ["CJ", "x", "BS", "ENTER"]])
+        la = input_blocks(rng, 0, toks_a, sa, rng.randrange(2), rng.random() < 0.3)
+        lb = input_blocks(rng, 1, toks_b, sb, rng.randrange(2), rng.random() < 0.3)
+        ev, ia, ib = [], 0, 0
+        while ia < len(la) or ib < len(lb):
+            if ib >= len(lb) or (ia < len(la) and rng.random() < 0.5):
+                ev += la[ia]
+                ia += 1
+            else:
+                ev += lb[ib]
+                ib += 1
+        yield mk_step_m(ev, (fins(toks_a), fins(toks_b)))
+
+
+# ---- second layer with a validator that rejects lines, and c-d (EOFError on an empty buffer)
+def lines_of(toks, val=0):
+    """how many prompts the script ends (an Enter that the validator rejects ends none)"""
+    return len(expected(toks, 10 ** 9, val)[0])
+
+
+def mk_step_v(units, events, val):
+    toks = flatten_units(units)
+    n = lines_of(toks, val)
+    k = max(1, n)
+    case = {"kind": "step", "layer": "B", "k": k, "events": events + completion_b(k), "complete": n >= k}
+    if val:
+        case["val"] = val
+    return case
+
+
+def rand_units_v(rng, nlines):
+    units = []
+    for _ in range(nlines):
+        for _ in range(rng.choice([0, 1, 2, 3, 5])):
+            r = rng.random()
+            if r < 0.55:
+                units.append([rng.choice("abxx")])
+            elif r < 0.7:
+                units.append([rng.choice(["BS", "CA", "CE", "LEFT", "RIGHT", "DEL"])])
+            elif r < 0.8:
+                units.append(["CD"])
+            elif r < 0.9:
+                units.append(["ENTER"])            # (maybe rejected: then it is just another key)
+            else:
+                units.append(["BS"])
+        units.append([rng.choice(["ENTER", "ENTER", "ENTER", "EENTER", "CC", "CD"])])
+    return units
+
+
+def cases_v(tier, rng):
+    quick = tier == "quick"
+    for val, alpha in ((1, [["a"], ["ENTER"], ["CD"], ["BS"]]), (2, [["a"], ["x"], ["ENTER"], ["BS"]]),
+                       (0, [["a"], ["ENTER"], ["CD"], ["CA"]])):
+        for n in range(1, (3 if quick else 4) + 1):
+            for tup in itertools.product(alpha, repeat=n):
+                units = list(tup)
+                if not any(u[0] in ("ENTER", "CD") for u in units):
+                    continue
+                comps = list(compositions(n))
+                big = n == (3 if quick else 4)
+                comps = [comps[0]] if big else ([comps[0], comps[-1]] if n > 1 else comps)
+                for sizes in comps:
+                    for pat in (("pre",) if big else ("pre", "interT", "late")):
+                        if pat == "pre" and len(sizes) > 1:
+                            continue
+                        yield mk_step_v(units, pattern_events_b(units, sizes, pat), val)
+    for _ in range(24 if quick else 800):
+        val = rng.choice([0, 1, 2])
+        units = rand_units_v(rng, rng.choice([1, 2, 2, 3]))
+        yield mk_step_v(units, rand_events_b(rng, units), val)
+    for i in range(15 if quick else 500):
+        val = rng.choice([0, 1, 2])
+        units = rand_units_v(rng, rng.choice([1, 2, 3]))
+        if lines_of(flatten_units(units), val) == 0:
+            continue
+        yield mk_e2e_b(rng, ["pre", "thread", "async"][i % 3], units, val)
 
 
 def rand_script(rng, nlines, rich=True, tail=None):
@@ -1309,6 +2106,8 @@ def mk_e2e(rng, mode, toks, k):
     if mode != "pre":
         case["delays"] = [rng.choice([0, 0, 0, 1, 1, 2, 3, 5]) for _ in range(rng.randrange(1, 6))]
         case["pdelay"] = rng.choice([0, 0, 0, 1, 3])
+    if mode in ("pre", "thread", "threadbytes") and rng.random() < 0.25:
+        case["in_thread"] = True           # PromptSession.prompt(in_thread=True)
     case["msched"] = model_sched(rng, toks, k)
     return case
 
@@ -1335,6 +2134,12 @@ def cases(tier, rng):
                     if pat == "pre" and len(sizes) > 1:
                         continue
                     yield mk_step(pattern_events(toks, sizes, pat), k)
+    # ---- fourth layer: bracketed paste under chunked reads
+    yield from cases_p(tier, rng)
+    # ---- fifth layer: two inputs sharing the type-ahead store
+    yield from cases_m(tier, rng)
+    # ---- second layer: validators that reject, c-d
+    yield from cases_v(tier, rng)
     # ---- random step cases
     nstep = 120 if quick else 1500
     for _ in range(nstep):
@@ -1475,6 +2280,8 @@ def cases(tier, rng):
 
 def nontrivial(case):
     toks = case_tokens(case)
+    if any(t.startswith("PASTE:") for t in toks):
+        return True
     if any(t.startswith("CPR:") for t in toks):
         return True
     if case["k"] >= 2:
@@ -1489,6 +2296,14 @@ def distribution(cases_):
         key = c["kind"] if c["kind"] == "step" else "e2e:" + c["mode"]
         if c.get("layer") == "B":
             key += ":keybuffer"
+        if c.get("val"):
+            key += ":validator"
+        if c.get("in_thread"):
+            key += ":in_thread"
+        if c.get("layer") == "P":
+            key += ":paste"
+        if c.get("layer") == "M":
+            key += ":two-inputs"
         if c.get("out") == "cpr":
             key += ":cpr-output"
         if c.get("vclock"):
